@@ -130,4 +130,40 @@ theorem t22MintValid_true {d : Bytes} (h : t22MintValid d = .ok true) :
       · simp at h
     · simp at h
 
+theorem t22AccountValid_ok (d : Bytes) : ∃ v, t22AccountValid d = .ok v := by
+  unfold t22AccountValid
+  split
+  · exact ⟨_, rfl⟩
+  · split
+    · rename_i hlen
+      simp only [SPL_TOKEN_ACCOUNT_LENGTH] at hlen
+      rw [index_ok (by simpa [SPL_TOKEN_ACCOUNT_LENGTH] using hlen)]
+      split
+      · simp only [Res.bind_ok]; split <;> exact ⟨_, rfl⟩
+      · exact ⟨_, rfl⟩
+    · exact ⟨_, rfl⟩
+
+theorem t22MintValid_ok (d : Bytes) : ∃ v, t22MintValid d = .ok v := by
+  unfold t22MintValid
+  split
+  · exact ⟨_, rfl⟩
+  · split
+    · rename_i hlen
+      simp only [SPL_TOKEN_ACCOUNT_LENGTH] at hlen
+      rw [index_ok (by simpa [SPL_TOKEN_ACCOUNT_LENGTH] using hlen)]
+      split
+      · simp only [Res.bind_ok]; split <;> exact ⟨_, rfl⟩
+      · exact ⟨_, rfl⟩
+    · exact ⟨_, rfl⟩
+
+theorem pubkey_ok {d : Bytes} (off : Nat) (h : off + 32 ≤ d.length) :
+    unpackPubkeyUnchecked d off = .ok ((d.drop off).take 32) := by
+  simp [unpackPubkeyUnchecked, PUBKEY_BYTES, slice, h, List.length_take, List.length_drop]
+  omega
+
+theorem u64_ok {d : Bytes} (off : Nat) (h : off + 8 ≤ d.length) :
+    unpackU64Unchecked d off = .ok (fromLe ((d.drop off).take 8)) := by
+  simp [unpackU64Unchecked, U64_BYTES, slice, h, List.length_take, List.length_drop]
+  omega
+
 end Token
